@@ -27,7 +27,7 @@ ASSUMPTIONS = [
 ]
 COMPONENTS = {"real": ["pyxel Processor deep copies / create_new_processor / Processor.replace / observation paths", "dask get_async"], "stub": ["thread pool"]}
 BUDGET = {"quick": {"n": 240, "wall": 100, "determinism": 4}, "thorough": {"n": 30000, "wall": 1500, "determinism": 12}}
-REQUIRED_REACH = ["variant:calibration", "line_level_preemption", "readout_times_swept", "path:seq", "path:par", "stateful", "mutate_list", "mutate_ndarray", "failed_run_snapshot", "polluted_caller", "mode:sequential", "mode:product"]
+REQUIRED_REACH = ["calibrated_vector_mutated_by_model", "several_pairs_per_fitness_call", "variant:calibration", "line_level_preemption", "readout_times_swept", "path:seq", "path:par", "stateful", "mutate_list", "mutate_ndarray", "failed_run_snapshot", "polluted_caller", "mode:sequential", "mode:product"]
 
 
 def generate(rng, tier):
@@ -39,6 +39,8 @@ def generate(rng, tier):
         a = scn["pipeline"]["charge_collection"][0]["arguments"]
         a.update({"stateful": True, "mutate": True, "mvec": [1.0, 2.0], "extra": {"k": 1}})
         scn["nd_args"] = rng.random() < 0.5
+        if "vec" in a and rng.random() < 0.6:
+            a["mutate_vec"] = True  # the model also works in place on the calibrated vector it receives
         return scn
     scn = obs.gen_observation(rng, tier, stochastic_p=0.0, sleep_p=0.3, stateful_p=0.5, mutate_p=0.5, obs_modes=("product", "sequential"))
     scn["path"] = rng.choice(["seq", "par"])
@@ -215,6 +217,16 @@ def execute_calibration(scn, forced=None):
                 viol.append({"clause": "C06.run-equals-standalone", "signature": "C06.evaluation-not-fresh@calibration" + ("+nd-args" if scn.get("nd_args") else ""), "detail": {"evaluation": rid, "detector_memory": ev.get("mem"), "extra": expo.norm(kw.get("extra")), "mvec": expo.norm(kw.get("mvec"))}})
                 break
         stats["calibration_evaluations"] = len(firsts)
+        if scn["pipeline"]["charge_collection"][0]["arguments"].get("mutate_vec"):
+            stats["calibrated_vector_mutated_by_model"] = 1
+            # all evaluations of one fitness call (one per target / input pair) receive the candidate's vector
+            for call in rec.get("fitlog") or []:
+                vecs = [np.asarray(e["kwargs"].get("vec"), dtype=float).ravel().tolist() for e in call["events"] if e["name"] == "cal"]
+                if len(vecs) > 1:
+                    stats["several_pairs_per_fitness_call"] = 1
+                if any(v != vecs[0] for v in vecs[1:]):
+                    viol.append({"clause": "C06.run-equals-standalone", "signature": "C06.evaluation-not-fresh@calibration+vector-changed-by-earlier-evaluation", "detail": {"decision": call["x"], "vectors_received": vecs[:3]}})
+                    break
     return {
         "violations": viol,
         "stats": stats,
